@@ -24,6 +24,9 @@ type c10Params struct {
 	// Sealed: the initial state already holds every key, in a table that is no longer the active
 	// one (the keys were written, then neighbours rolled the partition on to another table)
 	Sealed bool
+	// Mirror: replicated configuration; after every step every backup copy must mirror the primary
+	// copy (C04's clause for evictions caused by a limit)
+	Mirror bool
 }
 
 type c10Sys struct {
@@ -112,6 +115,47 @@ func (s *c10Sys) bounds(after string) []clustermc.Fail {
 	return fs
 }
 
+// mirror: every key is either absent everywhere or stored as one primary copy with identical backup
+// copies (value, timestamp) on every listed backup owner.
+func (s *c10Sys) mirror(after string) []clustermc.Fail {
+	var fs []clustermc.Fail
+	view := s.Cl.Live()[0]
+	for _, k := range s.P.Keys {
+		var prim *simcluster.Copy
+		cps := s.Cl.Copies("d", k)
+		for i := range cps {
+			if cps[i].Kind == "primary" {
+				prim = &cps[i]
+			}
+		}
+		backups := map[string]bool{}
+		for _, b := range s.Cl.Backups(view, "d", k) {
+			backups[b.Name] = true
+		}
+		seen := map[string]bool{}
+		for _, c := range cps {
+			if c.Kind != "backup" {
+				continue
+			}
+			seen[c.Member] = true
+			switch {
+			case prim == nil:
+				fs = append(fs, clustermc.Fail{Key: "mirror/backup-has-copy-primary-absent", What: fmt.Sprintf("%s: key %s is gone from the primary copy (evicted to keep the limit) but member %s still holds a backup copy %q", after, k, c.Member, c.Value)})
+			case string(c.Value) != string(prim.Value) || c.Timestamp != prim.Timestamp:
+				fs = append(fs, clustermc.Fail{Key: "mirror/backup-differs", What: fmt.Sprintf("%s: key %s: backup copy on %s is %q@%d, primary copy %q@%d", after, k, c.Member, c.Value, c.Timestamp, prim.Value, prim.Timestamp)})
+			}
+		}
+		if prim != nil {
+			for b := range backups {
+				if !seen[b] {
+					fs = append(fs, clustermc.Fail{Key: "mirror/backup-missing", What: fmt.Sprintf("%s: key %s has a primary copy but the listed backup owner %s holds none", after, k, b)})
+				}
+			}
+		}
+	}
+	return fs
+}
+
 func (s *c10Sys) Apply(e clustermc.Ev) []clustermc.Fail {
 	var fs []clustermc.Fail
 	now := sched.PeekNS() / 1e6
@@ -159,6 +203,9 @@ func (s *c10Sys) Apply(e clustermc.Ev) []clustermc.Fail {
 		}
 		s.Touched[k] = sched.PeekNS() / 1e6
 		fs = append(fs, s.bounds(s.describe(e))...)
+		if s.P.Mirror {
+			fs = append(fs, s.mirror("after "+s.describe(e))...)
+		}
 	case "fill":
 		// neighbours roll the partition's storage on to another table: the keys written before sit
 		// in a sealed table from now on
@@ -320,7 +367,45 @@ func c10Specs(tier string) []*clustermc.Spec {
 	return out
 }
 
+// c04LRUSpecs: the LRU configurations on a replicated cluster, with the mirror oracle (C04: "... or an
+// eviction"). Registered as a family of C04.
+func c04LRUSpecs(tier string) []*clustermc.Spec {
+	var out []*clustermc.Spec
+	keys := []string{"k0", "k1", "k2", "k3"}
+	depth := 4
+	type cf struct {
+		n, r, mkeys, inuse int
+	}
+	cfs := []cf{{2, 2, 3, 0}, {3, 2, 2, 0}, {2, 2, 0, 1}}
+	if tier == "thorough" {
+		depth = 5
+		cfs = append(cfs, cf{3, 3, 3, 0}, cf{3, 2, 7, 0})
+	}
+	const entryLen = 29 + 2 + 10
+	for _, c := range cfs {
+		p := &c10Params{Name: fmt.Sprintf("LRU MaxKeys=%d MaxInuse=%dentries P=3 N=%d R=%d", c.mkeys, c.inuse, c.n, c.r), Keys: keys, Depth: depth, EntryLen: entryLen, Mirror: true,
+			Opts: simcluster.Opts{N: c.n, Replicas: c.r, WriteQ: 1, ReadQ: 1, Partitions: 3, LRU: true, MaxKeys: c.mkeys, MaxInuse: c.inuse * entryLen * 3, LRUSamples: 2}}
+		var alpha []clustermc.Ev
+		for i := range p.Keys {
+			alpha = append(alpha, clustermc.Ev{K: "put", A: i})
+		}
+		alpha = append(alpha, clustermc.Ev{K: "get", A: 0})
+		proto := &c10Sys{P: p}
+		out = append(out, &clustermc.Spec{
+			Name: p.Name, Depth: p.Depth,
+			New:        func() interface{} { return c10New(p) },
+			Events:     func(s interface{}) []clustermc.Ev { return alpha },
+			Apply:      func(s interface{}, e clustermc.Ev) []clustermc.Fail { return s.(*c10Sys).Apply(e) },
+			Canon:      func(s interface{}) string { return s.(*c10Sys).Canon() },
+			Describe:   proto.describe,
+			NonTrivial: func(s interface{}) bool { return len(s.(*c10Sys).Written) >= 2 },
+		})
+	}
+	return out
+}
+
 func init() {
+	clustermc.Specs["C04lru"] = c04LRUSpecs
 	clustermc.Specs["C10"] = c10Specs
 	core.Register(&core.Check{ID: "C10", Level: "model_checking", Run: func(c *core.Ctx) {
 		c.Cov["rule"] = "BFS over Put sequences on 4-5 keys spread over the partitions for every (partition count, MaxKeys incl. values below the partition count, or MaxInuse in entries, LRUSamples, member count) configuration: after every Put the call succeeded, the key is readable, every owned partition holds at most max(1,MaxKeys/owned) keys / its byte share plus one entry and the member at most max(MaxKeys,owned) keys (white-box); idle part: BFS over {Put, Get, Tick 60ms, Tick 120ms, eviction passes} with MaxIdleDuration 100ms on the virtual clock; non-trivial = distinct states with at least two keys written"
